@@ -4,6 +4,7 @@ CONSTANTS
     MaxAge = 3
     MaxDt = 2
     MaxBDt = 1
+    RestoreKeepsEpisodeStart = TRUE
     LeaveOKStartsDuration = TRUE
     BatchGaps = {1}
     MaxBatch = 2
